@@ -279,3 +279,6 @@ c47_mem(G, Spec, R) :-
     c47_expand(Spec, Cs),
     catch(( findall(G, phrase(c47_g(G), Cs), Gs) -> R = sols(Gs) ; R = no ), E, R = ex(E)).
 c47_open_streams(File, N) :- findall(S, stream_property(S, file_name(File)), Ss), length(Ss, N).
+
+% C48 helper
+c48_atom(Cs, A) :- atom_chars(A, Cs).
